@@ -1,30 +1,61 @@
-"""Command-line driver.  python3-vt -m pyvc.check <Cxx> --tier quick|thorough   |   --fn <qualname>   |   --selfcheck"""
+"""Command-line driver.
+
+  python3-vt -m pyvc.check <Cxx> [--tier quick|thorough]     decide one property  (exit 0 held / 1 VIOLATION / 2 undecided / 3 error)
+  python3-vt -m pyvc.check --fn <substring>                  verify the functions whose qualified name matches (development)
+  python3-vt -m pyvc.check --selfcheck                        tool-chain self check (MANIFEST.setup_cmd)
+"""
 import argparse
 import importlib
+import json
+import os
+import subprocess
 import sys
 import time
+import traceback
 
-from . import discharge
+from . import discharge, extract
 from .contract import REGISTRY
 from .engine import Engine
 from .vals import EngineError
 from .extract import StaleContract
+from .models import pylists  # noqa: F401  (registers the models)
 
-CONTRACT_MODULES = ["numba_utils"]
+ROOT = os.path.dirname(os.path.dirname(os.path.abspath(__file__)))
+CONTRACT_MODULES = ["numba_utils", "dissimilarity"]
+VENV_PY = "/venv/bin/python"
 
 
 def load_contracts():
     for m in CONTRACT_MODULES:
         importlib.import_module("contracts." + m)
+    from contracts import properties
+    return properties.PROPS
+
+
+def gen_function(qual):
+    """returns (engine|None, obligations, error|None)"""
+    try:
+        eng = Engine(qual)
+        obls = eng.run()
+        return eng, obls, None
+    except StaleContract as e:
+        return None, [], ("stale-contract", str(e))
+    except EngineError as e:
+        return None, [], ("out-of-reach", str(e))
 
 
 def run_function(qual, timeout_ms=60000, verbose=True):
-    eng = Engine(qual)
     t = time.time()
-    obls = eng.run()
+    eng, obls, err = gen_function(qual)
+    if err:
+        print(f"{qual}: {err[0]}: {err[1]}")
+        return eng, obls
     gen = time.time() - t
     discharge.discharge(obls, timeout_ms=timeout_ms)
+    can = discharge.check_sat([h for _, h in eng.canary_points], 2000)
+    vac = [n for (n, _), r in zip(eng.canary_points, can) if r == "unsat"]
     if verbose:
+        print(f"  canaries: {len(can)} reachability points, verdicts {sorted(set(can))}, vacuous: {vac}")
         for o in obls:
             print(f"  {o.verdict:11s} {o.backend or '':10s} {o.seconds:6.2f}s  {o.name}")
             if o.verdict != "discharged" and o.detail:
@@ -33,22 +64,240 @@ def run_function(qual, timeout_ms=60000, verbose=True):
     return eng, obls
 
 
+def load_known():
+    p = os.path.join(ROOT, "known_findings.json")
+    if not os.path.exists(p):
+        return []
+    return json.load(open(p))
+
+
+def hunt(qual, prop, seed, tier, obligation, reason, extra=None):
+    """bounded hunt on the REAL code (under /venv/bin/python) with the executable contract of `qual`.
+    Returns (status, replay_path|None, text): status in found / none / no-oracle / error"""
+    os.makedirs(os.path.join(ROOT, "replays", prop), exist_ok=True)
+    safe = obligation.replace("/", "__").replace(" ", "_").replace(":", "_")[:150]
+    out = os.path.join(ROOT, "replays", prop, safe + ".json")
+    if os.path.exists(out):
+        os.unlink(out)
+    cmd = [VENV_PY, os.path.join(ROOT, "harness", "hunt.py"), "--fn", qual, "--prop", prop, "--seed", str(seed),
+           "--tier", tier, "--out", out, "--obligation", obligation, "--reason", reason[:2000]]
+    env = dict(os.environ)
+    env.setdefault("NUMBA_DISABLE_PERFORMANCE_WARNINGS", "1")
+    try:
+        p = subprocess.run(cmd, capture_output=True, text=True, timeout=1500 if tier == "quick" else 3600, env=env)
+    except subprocess.TimeoutExpired:
+        return "error", None, "hunt timed out"
+    text = (p.stdout + p.stderr)[-3000:]
+    if p.returncode == 1 and os.path.exists(out):
+        return "found", out, text
+    if p.returncode == 0:
+        return "none", None, text
+    if p.returncode == 4:
+        return "no-oracle", None, text
+    cur = out + ".current"
+    if p.returncode not in (0, 1, 3, 4) and os.path.exists(cur):
+        # the real code crashed the interpreter on a recorded input (numba code does no bounds checking)
+        c = json.load(open(cur))
+        os.unlink(cur)
+        rec = {"property": prop, "obligation": obligation, "function": qual, "oracle": qual, "reproduced": True,
+               "clause": "the call returns (no crash / memory corruption of the interpreter)", "inputs": c["inputs"],
+               "observed": f"interpreter died with exit status {p.returncode}: {text[-300:]}", "expected": "normal return",
+               "verifier": reason, "cases_tried": c["case"], "repo": extract.REPO,
+               "how": f"/venv/bin/python /verif/harness/run_replay.py {out}"}
+        json.dump(rec, open(out, "w"), indent=1)
+        return "found", out, text
+    return "error", None, text
+
+
+def write_unreplayed(prop, qual, obligation, o, reason):
+    """replay file for a refuted obligation for which no failing input was reproduced on the real code"""
+    os.makedirs(os.path.join(ROOT, "replays", prop), exist_ok=True)
+    safe = obligation.replace("/", "__").replace(" ", "_").replace(":", "_")[:150]
+    out = os.path.join(ROOT, "replays", prop, safe + ".json")
+    rec = {"property": prop, "obligation": obligation, "function": qual, "reproduced": False,
+           "clause": getattr(o, "clause", None), "kind": getattr(o, "kind", None),
+           "solver": {"backend": getattr(o, "backend", None), "verdict": getattr(o, "verdict", None),
+                      "output": (getattr(o, "detail", "") or "")[:6000]},
+           "reason": reason,
+           "source": extract.describe(qual) if qual in REGISTRY else None,
+           "how": "no failing input found by the bounded hunt on the real code; the obligation was generated from "
+                  "the current source and is not discharged - see solver.output"}
+    json.dump(rec, open(out, "w"), indent=1)
+    return out
+
+
+def check_property(prop, tier, seed, timeout_s):
+    t0 = time.time()
+    props = load_contracts()
+    if prop not in props:
+        print(f"property {prop} is not claimed (see MANIFEST.not_applicable)")
+        return 3
+    spec = props[prop]
+    known = [k for k in load_known() if k.get("property") == prop and k.get("status") == "known"]
+    all_obls, engines, fn_errors = [], {}, {}
+    for qual in spec["functions"]:
+        eng, obls, err = gen_function(qual)
+        if err:
+            fn_errors[qual] = err
+            continue
+        engines[qual] = eng
+        for o in obls:
+            if o.props is None or prop in o.props:
+                all_obls.append(o)
+    vcgen_s = time.time() - t0
+    discharge.discharge(all_obls, timeout_ms=timeout_s * 1000, second_solver=(tier == "thorough"))
+    # vacuity: no reachability point may have contradictory hypotheses
+    canaries = [(n, h) for e in engines.values() for (n, h) in e.canary_points]
+    can = discharge.check_sat([h for _, h in canaries], 2000 if tier == "quick" else 10000)
+    vacuous = [n for (n, _), r in zip(canaries, can) if r == "unsat"]
+    discharge.close()
+
+    violations, undecided, known_seen, lines = [], [], [], []
+    failed = [o for o in all_obls if o.verdict != "discharged"]
+    # known findings: an obligation listed in known_findings.json is reported as KNOWN-FINDING, not as a violation
+    def known_for(name):
+        for k in known:
+            if k.get("obligation") and k["obligation"] in name:
+                return k
+        return None
+    hunted = {}
+    for o in failed:
+        k = known_for(o.name)
+        if k is not None:
+            known_seen.append({"obligation": o.name, "what": k["what"]})
+            continue
+        qual = o.func
+        if qual not in hunted:
+            hunted[qual] = hunt(qual, prop, seed, tier, o.name, f"{o.verdict}: {o.detail}")
+        status, path, text = hunted[qual]
+        if status == "found":
+            violations.append((o.name, path, True))
+        elif o.verdict in ("refuted", "solver-disagreement"):
+            violations.append((o.name, write_unreplayed(prop, qual, o.name, o, text), False))
+        else:
+            undecided.append((o.name, f"{o.detail} | hunt: {status}"))
+    for qual, (kind, msg) in fn_errors.items():
+        k = known_for(qual.partition("::")[2])
+        if k is not None:
+            known_seen.append({"obligation": qual, "what": k["what"]})
+            continue
+        status, path, text = hunt(qual, prop, seed, tier, f"{qual.partition('::')[2]}/{kind}", msg)
+        if status == "found":
+            violations.append((f"{qual.partition('::')[2]}/{kind}", path, True))
+        else:
+            undecided.append((f"{qual.partition('::')[2]}/{kind}", f"{msg} | hunt: {status}"))
+    for n in vacuous:
+        undecided.append((n, "vacuous: hypotheses at this reachability point are contradictory"))
+    if not all_obls and not fn_errors:
+        undecided.append((prop, "zero obligations generated"))
+
+    n_dis = sum(o.verdict == "discharged" for o in all_obls)
+    backends = {}
+    for o in all_obls:
+        if o.verdict == "discharged":
+            backends[o.backend] = backends.get(o.backend, 0) + 1
+    trusted = list(spec.get("trusted", []))
+    for e in engines.values():
+        for m in sorted(e.used_models):
+            if m not in trusted:
+                trusted.append(m)
+    evidence = {
+        "property_id": prop, "tier": tier, "seed": seed, "level": "proof",
+        "wall_s": round(time.time() - t0, 2), "violations": len(violations),
+        "coverage": {
+            "obligations": len(all_obls), "discharged": n_dis,
+            "checker_cmd": f"python3-vt -m pyvc.check {prop} --tier {tier}",
+            "trusted_base": trusted,
+            "functions_under_contract": [extract.describe(q) for q in spec["functions"] if q not in fn_errors],
+            "functions_not_verified": [{"function": q, "why": f"{k}: {m}"} for q, (k, m) in fn_errors.items()],
+            "backends": backends, "solver_s": round(sum(o.seconds for o in all_obls), 2), "vcgen_s": round(vcgen_s, 2),
+            "by_kind": {k: sum(1 for o in all_obls if o.kind == k) for k in sorted({o.kind for o in all_obls})},
+            "obligation_list": [{"name": o.name, "kind": o.kind, "verdict": o.verdict, "backend": o.backend,
+                                 "seconds": round(o.seconds, 3)} for o in all_obls],
+            "samples": [{"obligation": o.name, "clause": o.clause, "verdict": o.verdict, "backend": o.backend,
+                         "seconds": round(o.seconds, 3)} for o in all_obls if o.kind in ("post", "inv_preserved", "lemma")][:12],
+            "vacuity": {"reachability_points": len(canaries), "contradictory": vacuous,
+                        "verdicts": {r: can.count(r) for r in sorted(set(can))}},
+            "second_solver": ({"rechecked": sum(1 for o in all_obls if hasattr(o, "second")),
+                               "agree": sum(1 for o in all_obls if getattr(o, "second", None) == "unsat")}
+                              if tier == "thorough" else None),
+            "bounded_standins": spec.get("bounded", []),
+            "not_decided": spec.get("not_decided", []),
+            "known_findings_seen": known_seen,
+            "undecided": [{"obligation": n, "why": w[:500]} for n, w in undecided],
+            "design_ref": spec.get("design_ref", ""),
+        },
+        "assumptions": trusted + ["lemmas proved by induction are proved once per function from its axioms and requires "
+                                  "and assumed at call sites after the callee's requires were discharged"],
+    }
+    os.makedirs(os.path.join(ROOT, "evidence"), exist_ok=True)
+    json.dump(evidence, open(os.path.join(ROOT, "evidence", f"{prop}.json"), "w"), indent=1)
+    for k in known_seen:
+        print(f"KNOWN-FINDING: property={prop} {k['what']} [{k['obligation']}]")
+    print(f"{prop}: {n_dis}/{len(all_obls)} obligations discharged over {len(engines)} functions "
+          f"({len(fn_errors)} not verified), {len(violations)} violations, {len(undecided)} undecided, "
+          f"{time.time() - t0:.1f}s")
+    for name, why in undecided:
+        print(f"UNDECIDED {name}: {why[:300]}")
+    for name, path, reproduced in violations:
+        print(f"  failed obligation: {name}")
+        print(f"VIOLATION property={prop} replay={path}" + ("" if reproduced else " no-failing-input-found"))
+    if violations:
+        return 1
+    if undecided:
+        return 2
+    return 0
+
+
+def selfcheck():
+    import z3
+    ok = True
+    print("z3 python", z3.get_version_string())
+    for cmd in (["/usr/bin/z3", "--version"], ["/usr/bin/cvc5", "--version"], [VENV_PY, "--version"]):
+        try:
+            out = subprocess.run(cmd, capture_output=True, text=True, timeout=60).stdout.strip().split("\n")[0]
+            print(" ".join(cmd), "->", out)
+        except Exception as e:   # noqa
+            print("MISSING", cmd, e)
+            ok = False
+    load_contracts()
+    print(len(REGISTRY), "contracts loaded;", "repo:", extract.REPO)
+    for q in REGISTRY:
+        if not REGISTRY[q].trusted:
+            extract.find_function(q)
+    x = z3.Int("x")
+    s = z3.Solver()
+    s.add(x > 0, x < 0)
+    assert s.check() == z3.unsat
+    return 0 if ok else 3
+
+
 def main():
     ap = argparse.ArgumentParser()
     ap.add_argument("prop", nargs="?")
     ap.add_argument("--fn")
-    ap.add_argument("--tier", default="quick")
+    ap.add_argument("--tier", default=os.environ.get("VERIF_TIER", "quick"))
     ap.add_argument("--selfcheck", action="store_true")
-    ap.add_argument("--timeout", type=int, default=60)
+    ap.add_argument("--timeout", type=int, default=None)
     a = ap.parse_args()
-    load_contracts()
-    if a.fn:
-        quals = [q for q in REGISTRY if a.fn in q]
-        for q in quals:
-            run_function(q, a.timeout * 1000)
+    seed = int(os.environ.get("VERIF_SEED", "0"))
+    try:
+        if a.selfcheck:
+            return selfcheck()
+        if a.fn:
+            load_contracts()
+            for q in [q for q in REGISTRY if a.fn in q]:
+                run_function(q, (a.timeout or 60) * 1000)
+            discharge.close()
+            return 0
+        if a.prop:
+            return check_property(a.prop, a.tier, seed, a.timeout or (60 if a.tier == "quick" else 300))
+        ap.print_help()
+        return 3
+    except Exception:   # noqa
+        traceback.print_exc()
         discharge.close()
-        return 0
-    return 0
+        return 3
 
 
 if __name__ == "__main__":
